@@ -84,10 +84,12 @@ PROPS = {
     ),
     "C18": dict(
         module="Anonymongo.Props.C18",
-        theorems=["Anonymongo.Cli.C18_exact", "Anonymongo.Cli.C18_clean", "Anonymongo.Cli.C18_modes"],
+        theorems=["Anonymongo.Cli.C18_exact", "Anonymongo.Cli.C18_clean", "Anonymongo.Cli.C18_modes",
+                  "Anonymongo.Cli.C18_source_exact", "Anonymongo.Cli.C18_model_is_source", "Anonymongo.Cli.C18_source_rules"],
+        extra_modules=["Anonymongo.Props.C18b"],
         corr=[],
-        statement="forall 2^13 presence/absence valuations (decided in the kernel): validate accepts iff Spec.wellDefined; a rejection has no effect but stderr+exit 1; an accepted job enters exactly one mode",
-        partial="the transliteration of main.go's validation chain (Model/Cli.lean) is tied to the code by running the real CLI on the combinations (exhaustively in the thorough tier) and comparing with the model; cobra/pflag parsing and the OS are runtime",
+        statement="forall 2^13 presence/absence valuations (decided in the kernel): validate accepts iff Spec.wellDefined; a rejection has no effect but stderr+exit 1; an accepted job enters exactly one mode; REGENERATED CHAIN (Props/C18b): tools/extract executes the `if ... os.Exit(1)` chain of main.go's Run closure symbolically over the presence atoms (flag variables, len(args), stdinHasData, the environment fallback of the key pair) on every run -> Generated/CliChain.lean; C18_source_exact decides, for all 2^13 valuations, that what the SOURCE's chain lets through is exactly the rule table's well-defined jobs, and C18_model_is_source that the hand-written transliteration rejects exactly what the source's chain rejects",
+        partial="the symbolic execution covers the chain up to the first Set...() call and refuses constructs it cannot express (a translator failure, handled like a broken proof); valuations on which the regenerated chain and the rule table disagree are synthesised and run through the real CLI first, so a broken obligation comes with its failing input; value-dependent behaviour (an EMPTY file argument, odd flag values), cobra/pflag parsing and the OS are runtime: tied by running the real CLI on the combinations (exhaustively in the thorough tier)",
         trusted=["spf13/cobra + pflag flag parsing, os.Stdin.Stat(), os.Create: exercised through the real binary, not modelled"],
     ),
     "C11": dict(
